@@ -156,6 +156,7 @@ template<int KB> static void t_assign_from_convertible() {   // array<T> = array
 VF_HARNESS(assign_from_convertible_k0) { t_assign_from_convertible<0>(); vf_reach("assign_from_convertible_k0"); }
 VF_HARNESS(assign_from_convertible_k1) { t_assign_from_convertible<1>(); vf_reach("assign_from_convertible_k1"); }
 
+#if DIM <= 2
 template<int KB> static void t_assign_initializer_list() {   // nested initializer lists (fixed small shapes, symbolic values)
   int x0 = vf_nondet_int(); int x1 = vf_nondet_int(); int x2 = vf_nondet_int(); int x3 = vf_nondet_int(); int x4 = vf_nondet_int(); int x5 = vf_nondet_int();
   Slot b; make_state<KB>(b, 40, 2); SLOT(4);
@@ -174,3 +175,4 @@ template<int KB> static void t_assign_initializer_list() {   // nested initializ
 }
 VF_HARNESS(assign_initializer_list_k0) { t_assign_initializer_list<0>(); vf_reach("assign_initializer_list_k0"); }
 VF_HARNESS(assign_initializer_list_k1) { t_assign_initializer_list<1>(); vf_reach("assign_initializer_list_k1"); }
+#endif
